@@ -3,8 +3,8 @@ CONSTANTS
   Traces = {"a", "b", "c"}
   KeepTraces = {"a", "b", "c"}
   DropTraces = {}
-  Rates = {1, 2}
-  Reasons = {"ra", "rb"}
+  Rates = {1, 4}
+  Reasons = {"ra", ""}
   Coupled = FALSE
   KeptSizes = {1, 2}
   ResizeKept = {0, 1, 3}
